@@ -130,6 +130,16 @@ def gen(src, consts):
     if 'self.build_inbound_messages(break_on_empty=True' not in pde:
         raise ExtractError('process_data_events no longer drains build_inbound_messages(break_on_empty=True)')
     n_sleeps += pde.count('time.sleep(')
+    # the consuming loops end when the channel is closed; do they then look at the connection's errors?
+    exit_checks = True
+    for fn in ('start_consuming', 'build_inbound_messages'):
+        g = src.func('channel.py', 'Channel', fn)
+        body = [st for st in strip_doc(g.body) if not is_logging(st)]
+        last = body[-1]
+        if not (isinstance(last, ast.If) and ast.unparse(last.test) == 'self._connection.exceptions'
+                and [ast.unparse(x) for x in last.body if not is_logging(x)] == ['self.check_for_errors()']
+                and isinstance(body[-2], ast.While)):
+            exit_checks = False
     return ('namespace Amqp.Gen.Transport\n'
             '/-- the list IO (reader, writer, pollers) appends transport errors to IS the list `Connection.exceptions`\n'
             '    returns, also after open(): it is cleared in place (%s), never rebound (%s) -/\n'
@@ -139,10 +149,13 @@ def gen(src, consts):
             '/-- every wait loop (RPC reply, connection state, message body, inbound generator) runs check_for_errors\n'
             '    before each IDLE_WAIT sleep -/\n'
             'def waitLoopsPollErrors : Bool := %s\n'
+            '/-- start_consuming and build_inbound_messages raise the connection\'s error when their loop ends because the\n'
+            '    channel was closed under them -/\n'
+            'def consumeLoopsCheckOnExit : Bool := %s\n'
             '/-- IDLE_WAIT sleeps between two error checks of an idle start_consuming loop -/\n'
             'def consumeLoopSleeps : Nat := %d\n'
             'end Amqp.Gen.Transport\n' % ('clears' if clears else 'no clear', 'rebinds' if rebinds else 'no rebind',
-                                        str(same_list).lower(), str(no_erase).lower(), str(loops_ok).lower(), n_sleeps))
+                                        str(same_list).lower(), str(no_erase).lower(), str(loops_ok).lower(), str(exit_checks).lower(), n_sleeps))
 
 
 FILES = {'Transport.lean': gen}
